@@ -3,4 +3,4 @@
 From Coq Require Extraction ExtrOcamlBasic.
 From SV Require Import Base.Base Cmp.Comparer.
 Extraction Language OCaml.
-Extraction "cmp_model.ml" cmp_run compare wf_namedb no_asgb.
+Extraction "cmp_model.ml" cmp_run compare wf_namedb no_asgb nv_keys.
